@@ -61,7 +61,11 @@ Inductive mode := Full | Abbreviated.
 (* provoked failures: which check of which flight rejects *)
 Inductive fault :=
 | NoFault
-| FEms       (* client requires extended master secret, server's ServerHello has none: client alert 71 in flight3Parse *)
+| FEms       (* client requires extended master secret, server's ServerHello has none: client alert 71 in flight3Parse
+                (the same alert at the same point - before the session id of the hello is looked at - answers a
+                ServerHello that names a cipher suite the client did not offer; the harness files both here) *)
+| FShAlpn    (* the ServerHello selects an application protocol the client did not offer (a server with a
+                ServerHelloMessageHook): client alert 47 in flight3Parse, at the same point *)
 | FSEms      (* server requires it, ClientHello has none: server alert 71 in flight0Parse, before the session lookup *)
 | FAlpn      (* no common application protocol: server alert 120 while generating flight 4 / 4b *)
 | FSPolicy   (* server's client-authentication policy refuses the client (no / unverified certificate): alert 41
@@ -156,6 +160,9 @@ Section Model.
     | FEms =>
         if p_arr_s p then R (idle (SentAlert 71) sid) (idle (RecvAlert 71) sid) [MDel (p_ckey p)] []
         else R (idle Stalled sid) (idle Stalled sid) [] []
+    | FShAlpn =>
+        if p_arr_s p then R (idle (SentAlert 47) sid) (idle (RecvAlert 47) sid) [MDel (p_ckey p)] []
+        else R (idle Stalled sid) (idle Stalled sid) [] []
     | _ =>
         if negb (p_arr_s p) then R (idle Stalled sid) (idle Stalled sid) [] [] else
         (* handleResumption: InitCipherSuite under the CLIENT's secret, then the queued Finished record *)
@@ -188,6 +195,8 @@ Section Model.
     | FAlpn => R (idle (RecvAlert 120) off) (idle (SentAlert 120) 0) [] []
     | FEms => R (idle (SentAlert 71) off) (idle (RecvAlert 71) nsid)
                 (if negb (off =? 0) then [MDel (p_ckey p)] else []) []
+    | FShAlpn => R (idle (SentAlert 47) off) (idle (RecvAlert 47) nsid)
+                   (if negb (off =? 0) then [MDel (p_ckey p)] else []) []
     | FCVerify => R (idle (SentAlert 42) csid) (idle (RecvAlert 42) nsid) (wrongdel ++ cdel) []
     | f =>
         if negb (p_arr_c p) then R (idle Stalled csid) (idle Stalled nsid) wrongdel [] else
